@@ -80,7 +80,7 @@ func main() {
 	workers := flag.Int("workers", 16, "workers")
 	maxPaths := flag.Int64("max-paths", 0, "path budget (0 = none)")
 	maxSec := flag.Float64("max-seconds", 0, "time budget")
-	maxSteps := flag.Int64("max-steps", 5_000_000, "instruction budget per path")
+	maxSteps := flag.Int64("max-steps", 1_000_000, "instruction budget per path")
 	timeout := flag.Int("timeout-ms", 10000, "per query timeout")
 	solver := flag.String("solver", "z3 -in", "solver command")
 	fallback := flag.String("fallback", "z3-new -in -T:120", "one-shot solver used when the main solver answers unknown (empty = none)")
@@ -106,7 +106,7 @@ func main() {
 	eng := loadEngine(*repo, strings.Split(*pkgs, ","), overlays)
 	cfg := &Config{Harness: *harness, Bounds: map[string]int64{}, MaxSteps: *maxSteps, MaxDepth: 400, MaxGoroutines: 64,
 		MaxPaths: *maxPaths, MaxSeconds: *maxSec, Workers: *workers, SolverArgv: strings.Fields(*solver), FallbackArgv: strings.Fields(*fallback), TimeoutMs: *timeout,
-		SchedExplore: *sched, SchedPolicy: *policy, MaxPreempt: *preempt, Race: *race, ConcBound: 512, trackFns: true, Trace: *trace,
+		SchedExplore: *sched, SchedPolicy: *policy, MaxPreempt: *preempt, Race: *race, ConcBound: 64, trackFns: true, Trace: *trace,
 		OpenClasses: map[string]bool{}, SampleEvery: *sampleEvery, BranchSites: *bsites}
 	for _, kv := range strings.Split(*bounds, ",") {
 		if kv == "" {
